@@ -1,16 +1,38 @@
-"""C19 bounded stand-in: Project.search / complete_search over enumerated small project trees.
+"""C19 bounded stand-in: Project.search / complete_search over generated project trees.
 
 Contract: found definitions == the definitions planted outside ignored places (ignored folder names, folders named by
-.gitignore entries at two levels); nothing from ignored places; Script.search agrees with filtering get_names."""
-import itertools
+.gitignore entries at several levels); nothing from ignored places; every module / package so named; Script.search
+agrees with filtering get_names.
+
+Two parts:
+  * the enumerated ignore layouts of the first version (kept unchanged, all of them run in both tiers);
+  * seeded random project trees (<= ~30 Python files): nested packages, namespace folders, folders with odd names,
+    ignored folder names and look-alikes at every depth, .gitignore files at several levels with relative / anchored /
+    trailing-slash / multi-component patterns, files in several encodings and newline conventions, identifiers from a
+    small pool (ASCII and non-ASCII, case variants, shared prefixes) so that the same spelling occurs as function,
+    class, statement, parameter, method, local, module name and package name, module files that define their own
+    name, names defined several times (try/except fallbacks, if/else, re-binding, locals shadowing globals).
+    Queries: every identifier / prefix / 'def x' / 'class x' / 'head.attr' x {search, complete_search} x {all_scopes}.
+Oracles: the planted definitions (positions known by construction, cross-checked against Python's own `ast` of the
+bytes and by executing the file), a model of the .gitignore subset cross-checked against `git check-ignore`, and for
+Script.search the filtered Script.get_names()."""
+import ast
+import json
 import os
+import random
 import shutil
+import subprocess
 import tempfile
 import traceback
+import unicodedata
+import multiprocessing as mp
 
 IGNORED = ['venv', '.venv', '.tox', '.mypy_cache', '__pycache__']
 
 
+# --------------------------------------------------------------------------------------------------------------------
+# part 1: the enumerated layouts of the first version
+# --------------------------------------------------------------------------------------------------------------------
 def build(root, spec):
     """spec: list of (relative dir, [(file name, function names)]) ; plus .gitignore contents"""
     for d, files, gitignore in spec:
@@ -58,21 +80,21 @@ def layouts(tier):
                 add('a/' + ign, 'nested_' + ign.strip('._'), False)
                 add('', 'top', True)
                 gi = {'a': git_a, '': git_root}
-                for d in set(list(spec_files) + list(gi)):
+                for d in sorted(set(list(spec_files) + list(gi))):
                     spec.append((d, spec_files.get(d, []), gi.get(d)))
                 out.append((spec, visible, hidden))
-    if tier == 'quick':
-        # every (.gitignore in a/, .gitignore in the root) combination once, the ignored folder name rotating
-        out = [out[(i % len(IGNORED)) * 12 + i] for i in range(12)]
     return out
 
 
-def run(repo, seed, tier):
+def _legacy_task(arg):
+    """the checks of the first version on the layouts[lo:hi] (and, for lo == 0, its fixed trees)"""
+    lo, hi = arg
     import jedi
+    jedi.settings.cache_directory = os.path.join(os.environ['STANDIN_TMP'], 'cache_%d' % os.getpid())
     violations = []
     evaluations = 0
     samples = []
-    for spec, visible, hidden in layouts(tier):
+    for spec, visible, hidden in layouts('thorough')[lo:hi]:
         root = tempfile.mkdtemp(prefix='proj_', dir=os.environ['STANDIN_TMP'])
         try:
             build(root, spec)
@@ -86,20 +108,24 @@ def run(repo, seed, tier):
                         exact.add(name)
             except Exception:
                 violations.append({'label': 'project search raised', 'input': repr(spec),
-                                   'observed': traceback.format_exc(limit=4)})
+                                   'observed': traceback.format_exc(limit=4), 'kind': 'layout'})
                 continue
             desc = sorted((d, g) for d, _, g in spec if g)
-            if len(samples) < 3:
+            if len(samples) < 1:
                 samples.append({'gitignores': desc, 'visible': sorted(visible), 'hidden': sorted(hidden)})
             for label, got in (('complete_search', found), ('search', exact)):
                 if visible - got:
                     violations.append({'label': '%s misses definitions outside ignored places' % label,
-                                       'input': repr(desc), 'observed': 'missing %r' % sorted(visible - got)})
+                                       'input': repr(desc), 'observed': 'missing %r' % sorted(visible - got),
+                                       'kind': 'layout'})
                 if got & hidden:
                     violations.append({'label': '%s reports definitions from ignored places' % label,
-                                       'input': repr(desc), 'observed': 'reported %r' % sorted(got & hidden)})
+                                       'input': repr(desc), 'observed': 'reported %r' % sorted(got & hidden),
+                                       'kind': 'layout'})
         finally:
             shutil.rmtree(root, ignore_errors=True)
+    if lo != 0:
+        return {'evaluations': evaluations, 'nontrivial': evaluations, 'violations': violations, 'samples': samples}
     # several files that map to one dotted module name: each file's definition is reported
     root = tempfile.mkdtemp(prefix='proj_', dir=os.environ['STANDIN_TMP'])
     try:
@@ -120,7 +146,7 @@ def run(repo, seed, tier):
                 if want - got:
                     violations.append({'label': '%s misses definitions outside ignored places' % label,
                                        'input': 'files %r, name %r' % (sorted(want), name),
-                                       'observed': 'reported only from %r' % sorted(got)})
+                                       'observed': 'reported only from %r' % sorted(got), 'kind': 'same dotted name'})
     finally:
         shutil.rmtree(root, ignore_errors=True)
     # Script.search agrees with filtering get_names
@@ -137,16 +163,1222 @@ def run(repo, seed, tier):
                               if n.name.lower() == nm.lower() and (not typ or n.type == typ))
                 if got != want:
                     violations.append({'label': 'Script.search disagrees with filtering get_names',
-                                       'input': repr((code, q, all_scopes)), 'observed': 'got %r want %r' % (got, want)})
-    seen = set()
-    uniq = []
+                                       'input': repr((code, q, all_scopes)), 'observed': 'got %r want %r' % (got, want),
+                                       'kind': 'fixed buffer'})
+    return {'evaluations': evaluations, 'nontrivial': evaluations, 'violations': violations, 'samples': samples}
+
+
+# --------------------------------------------------------------------------------------------------------------------
+# part 2: generated trees
+# --------------------------------------------------------------------------------------------------------------------
+# stems that are no module of the standard library / site-packages, so that the sys.path part of the search is silent
+ASCII_STEMS = ['zorb', 'quux', 'vexa', 'blip', 'fnord', 'kiwu']
+LATIN1_STEMS = ['café', 'über', 'maß', 'año', 'naïf', 'élan', 'größe']      # encodable in latin-1 / cp1252
+WIDE_STEMS = ['λx', 'данные', '変数', 'ěšč']                                  # only in UTF-8 files
+PKG_DIRS = ['a', 'ab', 'api', 'api_gateway', 'core', 'sub']
+LOOKALIKE_DIRS = ['venv2', 'myvenv', '.venvs', 'tox', '.toxic', '__pycache__2', 'mypy_cache', 'Venv', '.Tox',
+                  'venv.bak', '_venv']
+TARGET_DIRS = ['build', 'out', 'gen']
+TARGET_LOOKALIKES = ['build2', 'abuild', 'outer', 'Build']
+ODD_DIRS = ['my-dir', 'dir with space', 'päck', '.hidden', 'v1.2']
+ENCODINGS = ['utf-8', 'utf-8', 'utf-8', 'utf-8-sig', 'latin-1', 'cp1252', 'utf-8-decl', 'iso-8859-15']
+
+
+def _cap(s):
+    c = s[0].upper() + s[1:]
+    return c if c != s and len(c) == len(s) else None
+
+
+def _check_ident(n):
+    if not n.isidentifier() or unicodedata.normalize('NFKC', n) != n:
+        raise RuntimeError('harness: %r is no NFKC-stable identifier' % n)
+    return n
+
+
+class Pool:
+    """the identifiers of one tree: general identifiers (any kind of definition, file and folder names) and head
+    names (only ever bound to instances of classes of the same file, or used as file / folder names; the first part
+    of dotted searches)"""
+
+    def __init__(self, rng):
+        stems = rng.sample(ASCII_STEMS, 2)
+        r = rng.random()
+        if r < 0.45:
+            stems.append(rng.choice(LATIN1_STEMS))
+        elif r < 0.65:
+            stems.append(rng.choice(WIDE_STEMS))
+        elif r < 0.8:
+            stems += [rng.choice(LATIN1_STEMS), rng.choice(WIDE_STEMS)]
+        else:
+            stems.append(rng.choice(ASCII_STEMS))
+        stems = list(dict.fromkeys(stems))
+        self.stems = stems
+        idents = []
+        for s in stems:
+            idents += [s, s + '_path', s + '2', 'x_' + s]
+            if _cap(s):
+                idents.append(_cap(s))
+        # one identifier that ends in a non-ASCII letter and one that begins with one, whatever the stems are
+        if rng.random() < 0.5:
+            idents += [stems[0] + '_é', 'ß_' + stems[1]]
+        self.idents = [_check_ident(i) for i in dict.fromkeys(idents)]
+        self.heads = [_check_ident(h) for h in [stems[0] + '_cfg', 'cfg_' + stems[-1], stems[-1] + '_obj']]
+        self.members = self.idents + [_check_ident(m) for m in ['run_' + stems[0], stems[-1] + '_opt', 'level']]
+
+
+class Emitter:
+    """source text with the position of every binding"""
+
+    def __init__(self):
+        self.lines = []
+        self.defs = []      # dict(name, line, col, type, top, req, flow)
+        self.classes = {}   # top-level class name -> dict(members=[defs], base=name|None, n=number of definitions)
+        self.heads = []     # dict(name, cls, top)
+
+    def emit(self, indent, *parts, flow=False):
+        s = ' ' * indent
+        made = []
+        for p in parts:
+            if isinstance(p, str):
+                s += p
+            else:
+                name, typ, top, req = p
+                d = {'name': name, 'line': len(self.lines) + 1, 'col': len(s), 'type': typ, 'top': top, 'req': req,
+                     'flow': flow or indent > 0}
+                self.defs.append(d)
+                made.append(d)
+                s += name
+        self.lines.append(s)
+        return made
+
+
+def D(name, typ, top, req=True):
+    return (name, typ, top, req)
+
+
+class SourceGen:
+    def __init__(self, rng, pool, must=None):
+        self.rng, self.pool, self.em = rng, pool, Emitter()
+        self.must = list(must or [])   # identifiers that have to be defined at the top level of this file
+        self.reserved = set()          # names of classes that instances are made of: never bound again
+
+    def free(self):
+        return [i for i in self.pool.idents if i not in self.reserved]
+
+    def ident(self, top=True):
+        while self.must and top:
+            name = self.must.pop()
+            if name not in self.reserved:
+                return name
+        return self.rng.choice(self.free())
+
+    def idents(self, n):
+        return self.rng.sample(self.free(), n)
+
+    # ---- blocks -----------------------------------------------------------------------------------------------
+    def func(self, indent, top, depth, name=None):
+        rng, em = self.rng, self.em
+        name = name or self.ident(top and indent == 0)
+        kw = rng.choice(['def ', 'def ', 'async def '])
+        params = self.idents(rng.randint(0, 2))
+        parts = [kw, D(name, 'function', top), '(']
+        for i, p in enumerate(params):
+            parts += [', ' if i else '', rng.choice(['', '', '*']) if i == len(params) - 1 else '', D(p, 'param', False)]
+        parts.append('):')
+        em.emit(indent, *parts)
+        loc = rng.choice(self.free())
+        em.emit(indent + 4, D(loc, 'statement', False), ' = ', params[0] if params else '1')
+        if depth < 2 and rng.random() < 0.35:
+            (self.func if rng.random() < 0.6 else self.klass)(indent + 4, False, depth + 1)
+        if rng.random() < 0.3:
+            self.head_site(indent + 4, False)
+        em.emit(indent + 4, 'return ', loc)
+
+    def klass(self, indent, top, depth, name=None):
+        rng, em = self.rng, self.em
+        name = name or self.ident(top and indent == 0)
+        base = None
+        if top and indent == 0 and self.usable_classes() and rng.random() < 0.4:
+            base = rng.choice(self.usable_classes())
+        em.emit(indent, 'class ', D(name, 'class', top), '(%s)' % base if base else '', ':')
+        taken = set()
+        b = base
+        base_init = False
+        while b:
+            taken |= {m['name'] for m in em.classes[b]['members']}
+            base_init = base_init or em.classes[b]['init']
+            b = em.classes[b]['base']
+        members = []
+        free = [m for m in self.pool.members if m not in taken and m not in self.reserved]
+        for m in rng.sample(free, min(len(free), rng.randint(1, 4))):
+            kind = rng.choice(['attr', 'attr', 'meth', 'meth', 'inner', 'annattr'])
+            if kind == 'attr':
+                members += em.emit(indent + 4, D(m, 'statement', False), ' = 1')
+            elif kind == 'annattr':
+                members += em.emit(indent + 4, D(m, 'statement', False), ': int = 2')
+            elif kind == 'meth':
+                p = rng.choice(self.free())
+                made = em.emit(indent + 4, rng.choice(['def ', 'async def ']), D(m, 'function', False), '(',
+                               D('self', 'param', False), ', ', D(p, 'param', False), '):')
+                members.append(made[0])
+                em.emit(indent + 8, 'return ', p)
+            elif depth < 2:
+                members += em.emit(indent + 4, 'class ', D(m, 'class', False), ':')[:1]
+                em.emit(indent + 8, D(rng.choice(self.free()), 'statement', False), ' = 3')
+            else:
+                members += em.emit(indent + 4, D(m, 'statement', False), ' = 4')
+        init = False
+        if rng.random() < 0.35 and not base_init:     # (an __init__ that hides the one of the base would un-set its attributes)
+            free = [m for m in self.pool.members if m not in taken and m not in {x['name'] for x in members}
+                    and m not in self.reserved]
+            if free:
+                init = True
+                members += em.emit(indent + 4, 'def ', D('__init__', 'function', False), '(',
+                                   D('self', 'param', False), '):')[:1]
+                # an attribute of the instances, not a name binding: allowed in the answers, never required as a
+                # plain definition; required as a member of the instance in dotted searches
+                members += em.emit(indent + 8, 'self.', D(rng.choice(free), 'statement', False, False), ' = 5')
+        if top and indent == 0:
+            if name in em.classes:
+                em.classes[name]['n'] += 1     # re-defined: not used for instances
+            else:
+                em.classes[name] = {'members': members, 'base': base, 'n': 1, 'init': init}
+
+    def usable_classes(self):
+        """top-level classes whose name, and the name of each base, is bound exactly once so far"""
+        def once(c):
+            while c:
+                if self.em.classes[c]['n'] != 1 or sum(1 for d in self.em.defs if d['name'] == c) != 1:
+                    return False
+                c = self.em.classes[c]['base']
+            return True
+        return sorted(c for c in self.em.classes if once(c))
+
+    def head_site(self, indent, top, name=None):
+        """bind a head name to instances of classes of this file: plainly, in try/except, in if/else, re-bound"""
+        rng, em = self.rng, self.em
+        classes = self.usable_classes()
+        if not classes:
+            return False
+        h = name or rng.choice(self.pool.heads)
+        form = rng.choice(['plain', 'plain', 'try', 'ifelse', 'rebind']) if len(classes) > 1 else 'plain'
+        ks = rng.sample(classes, 2) if len(classes) > 1 else classes
+
+        def site(ind, k, flow):
+            em.emit(ind, D(h, 'statement', top), ' = %s()' % k, flow=flow)
+            em.heads.append({'name': h, 'cls': k, 'top': top})
+            while k:
+                self.reserved.add(k)
+                k = em.classes[k]['base']
+        if form == 'plain':
+            site(indent, ks[0], False)
+        elif form == 'rebind':
+            site(indent, ks[0], True)
+            site(indent, ks[1], True)
+        elif form == 'try':
+            em.emit(indent, 'try:')
+            em.emit(indent + 4, 'import ', D('nolib_%d' % rng.randint(1, 3), 'module', top, False), flow=True)
+            site(indent + 4, ks[0], True)
+            em.emit(indent, 'except ImportError:')
+            site(indent + 4, ks[1], True)
+        else:
+            em.emit(indent, 'if len(__name__) > 3:')
+            site(indent + 4, ks[0], True)
+            em.emit(indent, 'else:')
+            site(indent + 4, ks[1], True)
+        return True
+
+    def statement(self):
+        rng, em = self.rng, self.em
+        kind = rng.choice(['assign', 'assign', 'ann', 'bare', 'tuple', 'chain', 'aug', 'for', 'with', 'ifelse',
+                           'except', 'walrus', 'lambda', 'comp', 'import', 'mention', 'reference', 'attr'])
+        a = self.ident()
+        b = rng.choice([i for i in self.free() if i != a])
+        if kind == 'assign':
+            em.emit(0, D(a, 'statement', True), ' = ', rng.choice(['1', '"%s"' % b, '[1, 2]', 'None']))
+        elif kind == 'ann':
+            em.emit(0, D(a, 'statement', True), ': int = 1')
+        elif kind == 'bare':
+            em.emit(0, D(a, 'statement', True, False), ': int')     # a declaration, nothing is bound
+        elif kind == 'tuple':
+            em.emit(0, D(a, 'statement', True), ', (', D(b, 'statement', True), ', ', D('_u', 'statement', True),
+                    ') = 1, (2, 3)')
+        elif kind == 'chain':
+            em.emit(0, D(a, 'statement', True), ' = ', D(b, 'statement', True), ' = 4')
+        elif kind == 'aug':
+            em.emit(0, D(a, 'statement', True), ' = 1')
+            em.emit(0, D(a, 'statement', True), ' += 1')
+        elif kind == 'for':
+            em.emit(0, 'for ', D(a, 'statement', True), ' in (1, 2):', flow=True)
+            em.emit(4, D(b, 'statement', True), ' = 1', flow=True)
+        elif kind == 'with':
+            em.emit(0, 'with open(__file__) as ', D(a, 'statement', True), ':', flow=True)
+            em.emit(4, 'pass')
+        elif kind == 'ifelse':
+            em.emit(0, 'if len(__name__) > 3:')
+            em.emit(4, D(a, 'statement', True), ' = 1', flow=True)
+            em.emit(0, 'else:')
+            em.emit(4, D(a, 'statement', True), ' = 2', flow=True)
+        elif kind == 'except':
+            em.emit(0, 'try:')
+            em.emit(4, D(b, 'statement', True), ' = 1 // 0', flow=True)
+            em.emit(0, 'except ZeroDivisionError as ', D(a, 'statement', True), ':', flow=True)
+            em.emit(4, 'pass')
+        elif kind == 'walrus':
+            em.emit(0, 'if (', D(a, 'statement', True), ' := 1):', flow=True)
+            em.emit(4, 'pass')
+        elif kind == 'lambda':
+            em.emit(0, D(a, 'statement', True), ' = lambda ', D(b, 'param', False), ': ', b)
+        elif kind == 'comp':
+            em.emit(0, D(a, 'statement', True), ' = [', b, ' for ', D(b, 'statement', False), ' in (1, 2)]')
+        elif kind == 'import':
+            # an optional dependency: the import binds a name, but it is no definition of the project
+            em.emit(0, 'try:')
+            if rng.random() < 0.5:
+                em.emit(4, 'import ', D(a, 'module', True, False), flow=True)
+            else:
+                em.emit(4, 'import os as ', D(a, 'module', True, False), flow=True)
+            em.emit(0, 'except ImportError:')
+            em.emit(4, 'pass')
+        elif kind == 'mention':
+            em.emit(0, '# %s and %s are only mentioned here: def %s(): pass' % (a, b, a))
+            em.emit(0, '"""class %s: %s = 1"""' % (b, a))
+        elif kind == 'reference':
+            em.emit(0, 'if 0:')
+            em.emit(4, 'print(%s, %s.%s)' % (a, b, a))
+        elif kind == 'attr':
+            if self.usable_classes():
+                k = rng.choice(self.usable_classes())
+                # an attribute assignment: no name binding
+                em.emit(0, k, '.', D(a, 'statement', True, False), ' = 1')
+                self.em.classes[k].setdefault('extra', []).append(a)
+
+    def module(self, n_items, want_head=None):
+        rng = self.rng
+        if rng.random() < 0.3:
+            self.em.emit(0, '"""docstring that mentions %s"""' % rng.choice(self.pool.idents))
+        if want_head:
+            self.klass(0, True, 0)
+            self.klass(0, True, 0)
+        for _ in range(n_items):
+            r = rng.random()
+            if self.must and r < 0.8:
+                r = rng.choice([0.1, 0.3, 0.6])
+            if r < 0.25:
+                self.func(0, True, 0)
+            elif r < 0.45:
+                self.klass(0, True, 0)
+            elif r < 0.58:
+                self.head_site(0, True)
+            else:
+                self.statement()
+        if want_head:
+            self.head_site(0, True, name=want_head)
+        while self.must:
+            name = self.must.pop()
+            if name not in self.reserved:
+                self.em.emit(0, D(name, 'statement', True), ' = 0')
+        for h in self.em.heads:
+            # which class a name means where it is used is only beyond doubt if the class (and each base) is the
+            # one binding of its name in the file
+            chain, k = [], h['cls']
+            while k:
+                chain.append(k)
+                k = self.em.classes[k]['base']
+            h['weak'] = any(sum(1 for d in self.em.defs if d['name'] == k) != 1 for k in chain)
+        return self.em
+
+
+def encode_source(rng, em, simple=False):
+    """-> (bytes, text as Python decodes it, description); PEP 263 declarations, BOM, CRLF"""
+    enc = 'utf-8' if simple else rng.choice(ENCODINGS)
+    newline = '\n' if simple or rng.random() < 0.8 else '\r\n'
+    lines = list(em.lines)
+    shift = 0
+    if enc in ('latin-1', 'cp1252', 'iso-8859-15', 'utf-8-decl'):
+        codec = 'utf-8' if enc == 'utf-8-decl' else enc
+        try:
+            '\n'.join(lines).encode(codec)
+        except UnicodeEncodeError:
+            enc, codec = 'utf-8', 'utf-8'
+        else:
+            decl = rng.choice(['# -*- coding: %s -*-', '# coding=%s', '# vim: set fileencoding=%s :']) % codec
+            if rng.random() < 0.3:
+                lines = ['#!/usr/bin/env python', decl] + lines
+                shift = 2
+            else:
+                lines = [decl] + lines
+                shift = 1
+    else:
+        codec = enc
+    text = newline.join(lines) + (newline if lines and rng.random() < 0.9 else '')
+    raw = text.encode(codec)
+    for d in em.defs:
+        d['line'] += shift      # in place: the members of the classes are the same objects
+    return raw, text, em.defs, '%s%s' % (enc, ' CRLF' if newline == '\r\n' else '')
+
+
+def ast_bindings(raw, text):
+    """the binding sites of the module according to Python's own parser: {(name, line, column|None, top-level?)}"""
+    tree = ast.parse(raw)
+    lines = text.split('\n')
+    out = set()
+
+    def col(node):
+        line = lines[node.lineno - 1].encode('utf-8')
+        return len(line[:node.col_offset].decode('utf-8'))
+
+    def walk(node, nested):
+        if isinstance(node, (ast.FunctionDef, ast.AsyncFunctionDef)):
+            out.add((node.name, node.lineno, None, not nested))
+            a = node.args
+            for arg in a.posonlyargs + a.args + a.kwonlyargs + [x for x in (a.vararg, a.kwarg) if x]:
+                out.add((arg.arg, arg.lineno, col(arg), False))
+            for x in node.decorator_list + a.defaults + [d for d in a.kw_defaults if d]:
+                walk(x, nested)
+            for x in node.body:
+                walk(x, True)
+        elif isinstance(node, ast.ClassDef):
+            out.add((node.name, node.lineno, None, not nested))
+            for x in node.bases + node.decorator_list:
+                walk(x, nested)
+            for x in node.body:
+                walk(x, True)
+        elif isinstance(node, ast.Lambda):
+            a = node.args
+            for arg in a.posonlyargs + a.args + a.kwonlyargs + [x for x in (a.vararg, a.kwarg) if x]:
+                out.add((arg.arg, arg.lineno, col(arg), False))
+            walk(node.body, True)
+        elif isinstance(node, (ast.ListComp, ast.SetComp, ast.DictComp, ast.GeneratorExp)):
+            for x in ast.iter_child_nodes(node):
+                walk(x, True)
+        elif isinstance(node, ast.Name):
+            if isinstance(node.ctx, ast.Store):
+                out.add((node.id, node.lineno, col(node), not nested))
+        elif isinstance(node, ast.Attribute):
+            if isinstance(node.ctx, ast.Store):
+                out.add((node.attr, node.end_lineno, None, not nested))
+            walk(node.value, nested)
+        elif isinstance(node, ast.ExceptHandler):
+            if node.name:
+                out.add((node.name, node.lineno, None, not nested))
+            for x in ast.iter_child_nodes(node):
+                walk(x, nested)
+        elif isinstance(node, ast.alias):
+            out.add(((node.asname or node.name).split('.')[0], node.lineno, None, not nested))
+        else:
+            for x in ast.iter_child_nodes(node):
+                walk(x, nested)
+    walk(tree, False)
+    return out
+
+
+def validate_source(rel, raw, text, defs, heads, classes):
+    """the planted definitions are exactly the binding sites Python sees; the file runs; instances have the members"""
+    got = ast_bindings(raw, text)
+    planted = {(d['name'], d['line'], d['top']) for d in defs}
+    seen = {(n, l, t) for n, l, c, t in got}
+    if planted != seen:
+        raise RuntimeError('harness: planted definitions differ from the ast of %s: only planted %r, only ast %r\n%s'
+                           % (rel, sorted(planted - seen), sorted(seen - planted), text))
+    cols = {(d['name'], d['line'], d['col']) for d in defs}
+    for n, l, c, t in got:
+        if c is not None and (n, l, c) not in cols:
+            raise RuntimeError('harness: column of %r in line %d of %s is %d\n%s' % (n, l, rel, c, text))
+    ns = {'__name__': 'generated', '__file__': __file__}
+    try:
+        exec(compile(raw, rel, 'exec'), ns)
+    except Exception:
+        raise RuntimeError('harness: generated file %s does not run: %s\n%s' % (rel, traceback.format_exc(limit=2), text))
+    for h in heads:
+        if h['weak']:
+            continue        # the name of the class is bound again elsewhere in the file
+        for m in members_of(classes, h['cls']):
+            if not hasattr(ns[h['cls']](), m['name']):
+                raise RuntimeError('harness: instance of %s has no %s in %s' % (h['cls'], m['name'], rel))
+
+
+def members_of(classes, k):
+    out = []
+    while k:
+        out += classes[k]['members']
+        k = classes[k]['base']
+    return out
+
+
+# ---- .gitignore -----------------------------------------------------------------------------------------------------
+def under(path, folder):
+    return folder == '' or path == folder or path.startswith(folder + '/')
+
+
+def ignore_model(dirs, files, gitignores, classes=('core',)):
+    """paths (relative, '/'-separated) that git ignores, for entries without glob / negation:
+    an entry without '/' (other than a trailing one) names a folder or file of that name anywhere below the folder of
+    the .gitignore, an entry with a leading or inner '/' is relative to that folder; a trailing '/' restricts the entry
+    to folders; trailing blanks do not count.
+    gitignores: {folder: [(pattern text, class)]}; only entries whose class is in `classes` are applied."""
+    ign_dirs = set()
+    for d in sorted(dirs, key=lambda x: x.count('/')):
+        if d == '':
+            continue
+        parent = os.path.dirname(d)
+        if parent in ign_dirs:
+            ign_dirs.add(d)
+            continue
+        if _matched(d, True, gitignores, ign_dirs, classes):
+            ign_dirs.add(d)
+    ign_files = set()
+    for f in files:
+        if os.path.dirname(f) in ign_dirs or _matched(f, False, gitignores, ign_dirs, classes):
+            ign_files.add(f)
+    return ign_dirs, ign_files
+
+
+def _matched(path, is_dir, gitignores, ign_dirs, classes):
+    for g, entries in gitignores.items():
+        if g in ign_dirs or not under(path, g) or path == g:
+            continue
+        rel = path[len(g) + 1:] if g else path
+        for text, cls in entries:
+            if cls not in classes:
+                continue
+            p = text.rstrip(' ')
+            if not p or p[0] in '#!' or '*' in p:
+                continue
+            if p.endswith('/'):
+                if not is_dir:
+                    continue
+                p = p.rstrip('/')
+            if '/' in p:
+                if rel == p.lstrip('/'):
+                    return True
+            elif os.path.basename(path) == p:
+                return True
+    return False
+
+
+def git_ignored(root, paths):
+    """what git itself says (None without a git executable)"""
+    git = shutil.which('git')
+    if git is None:
+        return None
+    gitdir = tempfile.mkdtemp(prefix='git_', dir=os.environ['STANDIN_TMP'])
+    try:
+        env = dict(os.environ, GIT_CONFIG_GLOBAL='/dev/null', GIT_CONFIG_SYSTEM='/dev/null', GIT_CONFIG_NOSYSTEM='1',
+                   HOME=gitdir, LC_ALL='C')
+        for k in ('GIT_DIR', 'GIT_WORK_TREE', 'GIT_INDEX_FILE'):
+            env.pop(k, None)
+        repo = os.path.join(gitdir, 'r.git')
+        subprocess.run([git, 'init', '-q', '--bare', repo], check=True, env=env, capture_output=True)
+        with open(os.path.join(repo, 'info', 'exclude'), 'w'):
+            pass
+        p = subprocess.run([git, '--git-dir=' + repo, '--work-tree=' + root, '-C', root, '-c', 'core.excludesFile=',
+                            'check-ignore', '--no-index', '-z', '--stdin'],
+                           input='\0'.join(paths).encode('utf-8') + b'\0', env=env, capture_output=True)
+        if p.returncode not in (0, 1):
+            raise RuntimeError('harness: git check-ignore failed: %r' % p.stderr[-300:])
+        return {x.decode('utf-8') for x in p.stdout.split(b'\0') if x}
+    finally:
+        shutil.rmtree(gitdir, ignore_errors=True)
+
+
+# ---- the tree -------------------------------------------------------------------------------------------------------
+def gen_tree(rng, profile):
+    odd = profile == 'odd ignore'      # .gitignore entries with trailing blanks / naming files: separate trees
+    if odd:
+        profile = 'ignore'
+    """-> dict(dirs, files{rel: dict}, gitignores{dir: [(text, class)]}, gitignore_bytes{dir: bytes}, pool)"""
+    pool = Pool(rng)
+    names_for_dirs = pool.idents[:6] + pool.heads
+    dirs = ['']
+    n_dirs = {'ignore': rng.randint(7, 12), 'content': rng.randint(3, 7), 'wide': 5}[profile]
+    tries = 0
+    while len(dirs) <= n_dirs and tries < 200:
+        tries += 1
+        parent = rng.choice(dirs)
+        if parent.count('/') >= 3:
+            continue
+        r = rng.random()
+        if profile == 'wide':
+            group = PKG_DIRS + names_for_dirs + ODD_DIRS
+        elif profile == 'ignore':
+            group = (PKG_DIRS if r < 0.3 else IGNORED if r < 0.45 else LOOKALIKE_DIRS if r < 0.55 else TARGET_DIRS
+                     if r < 0.75 else TARGET_LOOKALIKES if r < 0.82 else ODD_DIRS if r < 0.9 else names_for_dirs)
+        else:
+            group = (PKG_DIRS if r < 0.3 else names_for_dirs if r < 0.62 else ODD_DIRS if r < 0.71 else IGNORED
+                     if r < 0.78 else TARGET_DIRS if r < 0.87 else [rng.choice(names_for_dirs) + '-stubs'])
+        d = (parent + '/' if parent else '') + rng.choice(group)
+        if d not in dirs:
+            dirs.append(d)
+    files = {}
+
+    def add_py(rel, must=None, want_head=None, n_items=None, simple=False):
+        gen = SourceGen(rng, pool, must=must)
+        if n_items is None:
+            n_items = rng.randint(0, 2) if profile == 'ignore' else rng.randint(1, 6)
+        em = gen.module(n_items, want_head=want_head)
+        raw, text, defs, enc = encode_source(rng, em, simple=simple)
+        files[rel] = {'raw': raw, 'text': text, 'defs': defs, 'enc': enc, 'py': True, 'heads': em.heads,
+                      'classes': em.classes}
+
+    for d in dirs:
+        pre = d + '/' if d else ''
+        if d.endswith('-stubs'):
+            add_py(pre + rng.choice(['__init__.pyi', '__init__.pyi', '__init__.py']), n_items=rng.randint(1, 2))
+        elif d and rng.random() < 0.45:
+            add_py(pre + rng.choice(['__init__.py', '__init__.py', '__init__.py', '__init__.pyi']),
+                   n_items=rng.randint(0, 2))
+        for _ in range(rng.randint(1, 3) if profile != 'wide' else 0):
+            r = rng.random()
+            base = rng.choice(pool.idents + pool.heads) if r < 0.45 else 'm%d' % rng.randint(1, 4)
+            suffix = '.py' if rng.random() < 0.85 else '.pyi'
+            rel = pre + base + suffix
+            if rel in files:
+                continue
+            own = base in pool.idents and rng.random() < 0.7
+            # a module that defines its own name (and more names with that prefix)
+            add_py(rel, must=[base, rng.choice([i for i in pool.idents if i.startswith(base)])] if own else None,
+                   want_head=rng.choice(pool.heads) if profile == 'content' and rng.random() < 0.5 else None)
+            if rng.random() < 0.12:
+                other = pre + base + ('.pyi' if suffix == '.py' else '.py')
+                if other not in files:
+                    add_py(other, must=[rng.choice(pool.idents)])
+        if rng.random() < 0.3:
+            # things that are no Python files must never be looked at
+            gen = SourceGen(rng, pool, must=[rng.choice(pool.idents)])
+            em = gen.module(1)
+            rel = pre + rng.choice(['notes.txt', 'old.py.bak', 'mod.pyx', 'Makefile', 'script.pyw', 'data.py.orig',
+                                    'pyfile', 'x.py~', 'stub.pyi.txt'])
+            files[rel] = {'raw': '\n'.join(em.lines).encode('utf-8'), 'py': False}
+    if profile == 'wide':
+        # many files that all contain one identifier: the documented limit is 30 parsed files
+        common = pool.idents[0]
+        n = rng.randint(26, 29)
+        for i in range(n):
+            d = dirs[i % len(dirs)]
+            add_py((d + '/' if d else '') + 'w%02d.py' % i, must=[common], n_items=1, simple=True)
+    for d in dirs:
+        if not any(os.path.dirname(f) == d for f in files):
+            files[(d + '/' if d else '') + 'README'] = {'raw': b'', 'py': False}
+
+    # .gitignore files at several levels
+    gitignores, gitignore_bytes = {}, {}
+    hosts = [d for d in dirs if any(under(x, d) and x != d for x in dirs)]
+    chosen = [h for h in hosts if (h == '' and rng.random() < 0.8) or (h != '' and rng.random() < 0.4)][:4]
+    if profile == 'wide':
+        chosen = []
+    for g in chosen:
+        below = [x for x in dirs if under(x, g) and x != g]
+        entries = []
+        for _ in range(rng.randint(1, 3)):
+            t = rng.choice(below)
+            rel = t[len(g) + 1:] if g else t
+            r = rng.random()
+            if r < 0.3:
+                text = os.path.basename(t)
+            elif r < 0.45:
+                text = os.path.basename(t) + '/'
+            elif r < 0.6:
+                text = '/' + rel
+            elif r < 0.7:
+                text = '/' + rel + '/'
+            elif r < 0.85:
+                text = rel                       # anchored if it has an inner slash, otherwise relative
+            else:
+                text = rel + '/'
+            cls = 'core'
+            if odd and rng.random() < 0.3:
+                text, cls = text + rng.choice([' ', '  ']), 'space'
+            entries.append((text, cls))
+        if odd and rng.random() < 0.5:
+            # an entry that names a file
+            pys = [f for f in files if files[f]['py'] and under(f, g) and not f.endswith(('__init__.py', '__init__.pyi'))]
+            if pys:
+                f = rng.choice(pys)
+                rel = f[len(g) + 1:] if g else f
+                entries.append((rng.choice([os.path.basename(f), '/' + rel]), 'file'))
+        for _ in range(rng.randint(0, 3)):
+            entries.insert(rng.randint(0, len(entries)),
+                           (rng.choice(['# build', '', '!keep.txt', '*.pyc', '*.egg-info/', '#venv', '!*.keep', '*.log']),
+                            'noise'))
+        nl = '\n' if rng.random() < 0.8 else '\r\n'
+        body = nl.join(t for t, _ in entries) + (nl if rng.random() < 0.85 else '')
+        gitignores[g] = entries
+        gitignore_bytes[g] = body.encode('utf-8')
+    if sum(1 for f in files.values() if f['py']) > 60:
+        raise RuntimeError('harness: tree too large')
+    return {'dirs': dirs, 'files': files, 'gitignores': gitignores, 'gitignore_bytes': gitignore_bytes, 'pool': pool}
+
+
+def write_tree(rng, root, tree):
+    order = list(tree['dirs'])
+    rng.shuffle(order)
+    for d in sorted(order, key=lambda x: x.count('/')):
+        os.makedirs(os.path.join(root, d), exist_ok=True)
+    names = sorted(tree['files'])
+    rng.shuffle(names)
+    for rel in names:
+        with open(os.path.join(root, rel), 'wb') as f:
+            f.write(tree['files'][rel]['raw'])
+    for g, body in tree['gitignore_bytes'].items():
+        with open(os.path.join(root, g, '.gitignore'), 'wb') as f:
+            f.write(body)
+
+
+def classify(tree):
+    """for every path: why it is hidden, or None. -> (hidden{path: reason}, visible python files)"""
+    dirs, files = tree['dirs'], tree['files']
+    all_files = list(files) + [(g + '/' if g else '') + '.gitignore' for g in tree['gitignores']]
+    core_d, core_f = ignore_model(dirs, all_files, tree['gitignores'], ('core',))
+    full_d, full_f = ignore_model(dirs, all_files, tree['gitignores'], ('core', 'space', 'file'))
+    hidden = {}
+    for p in list(dirs) + all_files:
+        if p == '':
+            continue
+        parts = p.split('/')
+        folder_parts = parts if p in dirs else parts[:-1]
+        if any(x in IGNORED for x in folder_parts):
+            hidden[p] = 'name'
+        elif p in core_d or p in core_f:
+            hidden[p] = 'gitignore'
+        elif p in full_d or p in full_f:
+            s_d, s_f = ignore_model(dirs, all_files, tree['gitignores'], ('core', 'space'))
+            hidden[p] = 'space' if (p in s_d or p in s_f) else 'file'
+    return hidden, all_files, (full_d, full_f)
+
+
+ODD = ' (tree with .gitignore entries that have trailing blanks or name files)'
+LABEL_HIDDEN = {
+    'name': '%s reports definitions from ignored places',
+    'gitignore': '%s reports definitions from ignored places',
+    'name odd': '%s reports definitions from ignored places' + ODD,
+    'gitignore odd': '%s reports definitions from ignored places' + ODD,
+    'space odd': '%s reports definitions from folders named by a .gitignore entry with trailing blanks',
+    'file odd': '%s reports definitions from files named by a .gitignore entry',
+    'space': '%s reports definitions from folders named by a .gitignore entry with trailing blanks',
+    'file': '%s reports definitions from files named by a .gitignore entry',
+}
+
+
+class TreeCheck:
+    def __init__(self, idx, seed, tier, profile):
+        self.idx, self.seed, self.tier, self.profile = idx, seed, tier, profile
+        self.rng = random.Random('%s/%s/%s' % (seed, idx, profile))
+        self.violations, self.evaluations, self.nontrivial = [], 0, 0
+        self.sample = None
+        self._entities = None
+
+    def add(self, label, kind, query, observed, rel=None):
+        t = self.tree
+        desc = {'tree': '%s #%d (seed %d)' % (self.profile, self.idx, self.seed), 'project': self.cfg_name,
+                'query': query,
+                'gitignores': {g or '.': b.decode('utf-8') for g, b in t['gitignore_bytes'].items()},
+                'paths': sorted(p for p in self.all_files)}
+        if rel is not None and rel in t['files'] and t['files'][rel].get('py'):
+            desc['file'] = rel
+            desc['encoding'] = t['files'][rel]['enc']
+            desc['source'] = t['files'][rel]['text'][:700]
+        self.violations.append({'label': label, 'kind': kind, 'input': json.dumps(desc, ensure_ascii=False),
+                                'observed': observed[:700]})
+
+    # ---- expectations ---------------------------------------------------------------------------------------------
+    def module_entities(self):
+        """modules and packages of the tree: (module name, key, hidden reason|None, top-level?, required?, parent folder)"""
+        if self._entities is not None:
+            return self._entities
+        t = self.tree
+        found = []      # (parent folder, module name, key, hidden, top, kind)
+        for rel, f in t['files'].items():
+            if not f['py']:
+                continue
+            stem, suffix = os.path.basename(rel).rsplit('.', 1)
+            if stem != '__init__':
+                found.append((os.path.dirname(rel), stem, (rel, None, None, stem, 'module'), self.hidden.get(rel),
+                              '/' not in rel, suffix))
+        for d in t['dirs']:
+            if d == '':
+                continue
+            name = os.path.basename(d)
+            kind = 'dir'
+            if name.endswith('-stubs'):
+                name, kind = name[:-len('-stubs')], 'stubs'     # PEP 561: the stub package of `name`
+            if d + '/__init__.py' in t['files']:
+                key = (d + '/__init__.py', None, None, name, 'module')
+            elif d + '/__init__.pyi' in t['files']:
+                key = (d + '/__init__.pyi', None, None, name, 'module')
+            else:
+                key = (None, None, None, name, 'namespace')
+            found.append((os.path.dirname(d), name, key, self.hidden.get(d), '/' not in d, kind))
+        out = []
+        for parent, name, key, hid, top, kind in found:
+            # stubs next to what they describe are reported as the thing described; alone they are reported themselves
+            alone = sum(1 for p2, n2, _, _, _, _ in found if (p2, n2) == (parent, name)) == 1
+            required = kind in ('py', 'dir') and (kind == 'py' or key[0] is None or key[0].endswith('.py') or alone) \
+                or alone and not (kind == 'stubs' and key[0] is None)
+            out.append((name, key, hid, top, required, parent))
+        self._entities = out
+        return out
+
+    def expect(self, wanted_type, names, complete, all_scopes):
+        """-> (required, allowed, prefix_modules): sets of keys (rel, line, col, name, type)"""
+        t = self.tree
+        last = names[-1]
+
+        def exact(n):
+            return n.startswith(last) if complete else n == last
+
+        def loose(n):
+            return n.lower().startswith(last.lower()) if complete else n.lower() == last.lower()
+
+        def typed(typ):
+            return not wanted_type or wanted_type == typ
+        req, allowed, prefix_modules = set(), set(), set()
+        if len(names) == 1:
+            for rel, f in t['files'].items():
+                if not f['py'] or rel in self.hidden:
+                    continue
+                for d in f['defs']:
+                    if (all_scopes or d['top']) and typed(d['type']) and loose(d['name']):
+                        key = (rel, d['line'], d['col'], d['name'], d['type'])
+                        allowed.add(key)
+                        if exact(d['name']) and d['req']:
+                            req.add(key)
+            for name, key, hid, top, required, _ in self.module_entities():
+                if hid or not loose(name):
+                    continue
+                if key[0] is not None and key[0].endswith('__init__.pyi') and typed('namespace'):
+                    allowed.add((None, None, None, name, 'namespace'))   # at run time such a folder is a namespace
+                if not typed(key[4]):
+                    continue
+                allowed.add(key)
+                if name == last and required:
+                    req.add(key)
+                elif exact(name) and required:
+                    prefix_modules.add(key)
+            return req, allowed, prefix_modules
+        head = names[0]
+        # 1. the head is a module or a package: its top-level definitions
+        for name, key, hid, top, required, parent in self.module_entities():
+            if name != head or hid and not (top and self.cfg_name != 'no sys.path'):
+                continue
+            # sub-modules and sub-packages are attributes of a package once they are imported: allowed
+            me = (parent + '/' if parent else '') + name
+            for n2, k2, h2, _, _, p2 in self.module_entities():
+                # (they are found by the import machinery, which does not know about ignore rules)
+                if p2 in (me, me + '-stubs') and loose(n2):
+                    if typed(k2[4]):
+                        allowed.add(k2)
+                    if typed('namespace'):
+                        allowed.add((None, None, None, n2, 'namespace'))
+            if key[0] is None or hid:
+                continue
+            rel = key[0]
+            f = t['files'][rel]
+            sibling = rel[:-1] if rel.endswith('.pyi') else rel + 'i'
+            counts = {}
+            for d in f['defs']:
+                if d['top']:
+                    counts[d['name']] = counts.get(d['name'], 0) + 1
+            for d in f['defs']:
+                if d['top'] and typed(d['type']) and loose(d['name']):
+                    k = (rel, d['line'], d['col'], d['name'], d['type'])
+                    allowed.add(k)
+                    # several bindings of one name: which of them a module "has" depends on the flow
+                    if exact(d['name']) and d['req'] and not d['flow'] and counts[d['name']] == 1 \
+                            and d['type'] != 'module' and sibling not in t['files'] and required \
+                            and not (rel.endswith('.pyi') and d['name'].startswith('_')):    # private in a stub
+                        req.add(k)
+        # 2. the head is bound to instances of classes of the same file: the members of each such class
+        for rel, f in t['files'].items():
+            if not f['py'] or rel in self.hidden:
+                continue
+            for h in f['heads']:
+                if h['name'] != head or not (all_scopes or h['top']):
+                    continue
+                extra = set()
+                k = h['cls']
+                while k:
+                    extra |= set(f['classes'][k].get('extra', []))
+                    k = f['classes'][k]['base']
+                for m in members_of(f['classes'], h['cls']):
+                    if typed(m['type']) and loose(m['name']):
+                        k = (rel, m['line'], m['col'], m['name'], m['type'])
+                        allowed.add(k)
+                        if exact(m['name']) and not h['weak']:
+                            req.add(k)
+                for d in f['defs']:
+                    # attributes set from outside (K.x = 1); and if the name of the class is bound several times,
+                    # the members of whatever else it may mean
+                    if (d['name'] in extra or h['weak'] and not d['top']) and loose(d['name']) and typed(d['type']):
+                        allowed.add((rel, d['line'], d['col'], d['name'], d['type']))
+        return req, allowed, prefix_modules
+
+    # ---- one query ------------------------------------------------------------------------------------------------
+    def query(self, string, complete, all_scopes, qkind):
+        t = self.tree
+        api = 'complete_search' if complete else 'search'
+        q = '%s(%r, all_scopes=%r)' % (api, string, all_scopes)
+        self.evaluations += 1
+        try:
+            results = list(getattr(self.project, api)(string, all_scopes=all_scopes))
+            got = []
+            for r in results:
+                got.append((r.module_path, r.line, r.column, r.name, r.type))
+        except Exception:
+            self.add('project search raised' + self.off_path, qkind, q, traceback.format_exc(limit=6)[-700:])
+            return
+        wanted_type, _, dotted = string.rpartition(' ')
+        wanted_type = {'def': 'function'}.get(wanted_type, wanted_type)
+        names = dotted.split('.')
+        req, allowed, prefix_modules = self.expect(wanted_type, names, complete, all_scopes)
+        seen, seen_list = set(), []
+        for path, line, col, name, typ in got:
+            if line is None and typ not in ('module', 'namespace'):
+                continue                                      # __name__, __doc__ ... of a module: no definitions
+            if path is None:
+                if typ != 'namespace':
+                    continue                                  # a compiled module of the environment
+                key = (None, None, None, name, 'namespace')
+            else:
+                path = os.path.realpath(str(path))
+                if not under(path, self.root):
+                    continue                                  # the environment's sys.path
+                rel = os.path.relpath(path, self.root).replace(os.sep, '/')
+                # a module as such is reported at (1, 0); an imported name of type module sits where the import is
+                whole = typ == 'module' and (line, col) in ((1, 0), (None, None))
+                key = (rel, None, None, name, typ) if whole else (rel, line, col, name, typ)
+            seen_list.append(key)
+            if key in seen:
+                continue
+            seen.add(key)
+            if key in allowed:
+                continue
+            rel = key[0]
+            if rel is None:
+                # a folder without __init__: the answer does not say which one, so go by the name
+                spelled = len(names) == 1 and not wanted_type and (
+                    name.lower().startswith(names[0].lower()) if complete else name.lower() == names[0].lower())
+                ents = [e for e in self.module_entities() if e[1] == key or e[0] == name and e[1][0] is not None
+                        and e[1][0].endswith('__init__.pyi')]    # (a folder with only __init__.pyi: a namespace too)
+                if not spelled or not ents:
+                    self.add('%s reports something that is no definition spelled that way' % api, qkind, q,
+                             'reported namespace %r' % name)
+                elif not (self.cfg_name != 'no sys.path' and any(e[3] for e in ents)):
+                    # all folders of that name are hidden (otherwise the key would be allowed), none is a top-level
+                    # folder that the sys.path part of the search may report
+                    reasons = {e[2] for e in ents}
+                    reason = 'space' if reasons == {'space'} else 'file' if reasons <= {'space', 'file'} else 'name'
+                    self.add(LABEL_HIDDEN[reason + self.odd] % api, qkind, q,
+                             'reported namespace %r, folders of that name: %r' % (
+                                 name, [d for d in t['dirs'] if os.path.basename(d) == name]))
+                continue
+            if rel not in t['files'] or not t['files'][rel]['py']:
+                self.add('%s reports definitions from files that are no Python files' % api, qkind, q,
+                         'reported %r' % (key,))
+                continue
+            reason = self.hidden.get(rel)
+            if reason:
+                first = rel.split('/')[0]
+                first_name = first.rsplit('.', 1)[0] if first in t['files'] else first
+                if self.cfg_name != 'no sys.path' and self.hidden.get(first) and (
+                        first_name.lower() in (names[0].lower(), names[0].lower() + '-stubs') or (
+                            complete and len(names) == 1 and first_name.lower().startswith(names[0].lower()))):
+                    continue     # the ignored thing is itself a module of that name on sys.path (the project folder)
+                # (in the trees with odd entries one known weakness can surface in other ignored places, too:
+                # x-stubs/ named by an entry with a trailing blank leads to the ignored package x)
+                self.add(LABEL_HIDDEN[reason + self.odd] % api, qkind, q, 'reported %r' % (key,), rel)
+                continue
+            self.add('%s reports something that is no definition spelled that way' % api, qkind, q,
+                     'reported %r; definitions of the file: %r' % (
+                         key, [(d['name'], d['line'], d['col'], d['type'], 'top' if d['top'] else 'nested')
+                               for d in t['files'][rel]['defs'] if d['name'].lower().startswith(names[-1].lower()[:3])]),
+                     rel)
+        missing = sorted(req - seen, key=repr)
+        if missing:
+            self.add('%s misses definitions outside ignored places' % api, qkind, q,
+                     'missing %r (reported: %r)' % (missing[:6], sorted(seen, key=repr)[:8]), missing[0][0])
+        if req:
+            self.nontrivial += 1
+        lost = sorted(prefix_modules - seen, key=repr)
+        if lost:
+            self.add('complete_search misses modules and packages whose name only starts with the search string',
+                     qkind, q, 'missing %r' % lost[:6])
+        dup = sorted({k for k in seen_list if seen_list.count(k) > 1 and k[0] is not None}, key=repr)
+        if dup:
+            self.add('%s reports one definition several times' % api, qkind, q, 'several times: %r' % dup[:6], dup[0][0])
+
+    # ---- Script.search on the buffers -----------------------------------------------------------------------------
+    def script_checks(self, jedi):
+        t, rng = self.tree, self.rng
+        pys = sorted(r for r, f in t['files'].items() if f['py'] and f['defs'])
+        for rel in rng.sample(pys, min(len(pys), 3 if self.tier == 'quick' else 5)):
+            f = t['files'][rel]
+            script = jedi.Script(f['text'], path=os.path.join(self.root, rel), project=self.project)
+            names = sorted({d['name'] for d in f['defs']})
+            picked = rng.sample(names, min(len(names), 5))
+            queries = [(n, False) for n in picked]
+            queries += [(n[:rng.randint(1, len(n))], True) for n in picked[:3]]
+            queries += [(rng.choice(['def ', 'class ']) + n, False) for n in picked[:2]]
+            queries += [('missing_name', False)]
+            plain = {}
+            for all_scopes in (False, True):
+                plain[all_scopes] = [(n.name, n.type, n.line, n.column) for n in script.get_names(all_scopes=all_scopes)]
+            for string, complete in queries:
+                for all_scopes in (False, True):
+                    self.evaluations += 1
+                    q = 'Script(%s).%s(%r, all_scopes=%r)' % (rel, 'complete_search' if complete else 'search', string,
+                                                              all_scopes)
+                    try:
+                        fn = script.complete_search if complete else script.search
+                        got = [(n.name, n.type, n.line, n.column) for n in fn(string, all_scopes=all_scopes)]
+                    except Exception:
+                        self.add('Script.search raised' + self.off_path, 'buffer', q, traceback.format_exc(limit=6)[-700:], rel)
+                        continue
+                    typ, _, last = string.rpartition(' ')
+                    typ = {'def': 'function'}.get(typ, typ)
+
+                    def exact(n):
+                        return n.startswith(last) if complete else n == last
+
+                    def loose(n):
+                        return n.lower().startswith(last.lower()) if complete else n.lower() == last.lower()
+                    must = [g for g in plain[all_scopes] if exact(g[0]) and (not typ or g[1] == typ)]
+                    may = [g for g in plain[all_scopes] if loose(g[0]) and (not typ or g[1] == typ)]
+                    if [g for g in must if g not in got] or [g for g in got if g not in may]:
+                        self.add('Script.search disagrees with filtering get_names', 'buffer', q,
+                                 'got %r, filtered get_names %r' % (sorted(got), sorted(must)), rel)
+                    if must:
+                        self.nontrivial += 1
+                    # and against the planted definitions
+                    planted = {(d['name'], d['type'], d['line'], d['col']) for d in f['defs']
+                               if (all_scopes or d['top']) and exact(d['name']) and d['req']
+                               and (not typ or d['type'] == typ)}
+                    if planted - set(got):
+                        self.add('Script.search misses definitions of the buffer', 'buffer', q,
+                                 'missing %r, got %r' % (sorted(planted - set(got)), sorted(got)), rel)
+            # dotted searches on the buffer
+            for h in sorted({h['name'] for h in f['heads']}):
+                members = sorted({m['name'] for hh in f['heads'] if hh['name'] == h
+                                  for m in members_of(f['classes'], hh['cls'])})
+                for m in rng.sample(members, min(len(members), 3)):
+                    for string, complete in ((h + '.' + m, False), (h + '.' + m[:max(1, len(m) - 2)], True)):
+                        for all_scopes in (False, True):
+                            self.evaluations += 1
+                            q = 'Script(%s).%s(%r, all_scopes=%r)' % (
+                                rel, 'complete_search' if complete else 'search', string, all_scopes)
+                            try:
+                                fn = script.complete_search if complete else script.search
+                                # (answers for a stub may point into the module next to it: not checked)
+                                got = {(rel, n.line, n.column, n.name, n.type)
+                                       for n in fn(string, all_scopes=all_scopes) if n.module_path is not None
+                                       and os.path.realpath(str(n.module_path)) == os.path.join(self.root, rel)}
+                            except Exception:
+                                self.add('Script.search raised' + self.off_path, 'buffer dotted', q,
+                                         traceback.format_exc(limit=6)[-700:], rel)
+                                continue
+                            req, allowed = self.expect_in_file(rel, h, string.split('.')[1], complete, all_scopes)
+                            if req:
+                                self.nontrivial += 1
+                            if req - got:
+                                self.add('Script.search misses definitions of the buffer', 'buffer dotted', q,
+                                         'missing %r, got %r' % (sorted(req - got), sorted(got)), rel)
+                            if got - allowed:
+                                self.add('Script.search reports something that is no definition spelled that way',
+                                         'buffer dotted', q, 'unexpected %r' % sorted(got - allowed), rel)
+
+    def expect_in_file(self, rel, head, last, complete, all_scopes):
+        f = self.tree['files'][rel]
+        req, allowed = set(), set()
+        for h in f['heads']:
+            if h['name'] != head or not (all_scopes or h['top']):
+                continue
+            extra = set()
+            k = h['cls']
+            while k:
+                extra |= set(f['classes'][k].get('extra', []))
+                k = f['classes'][k]['base']
+            for m in members_of(f['classes'], h['cls']):
+                ok = m['name'].lower().startswith(last.lower()) if complete else m['name'].lower() == last.lower()
+                if ok:
+                    key = (rel, m['line'], m['col'], m['name'], m['type'])
+                    allowed.add(key)
+                    if (m['name'].startswith(last) if complete else m['name'] == last) and not h['weak']:
+                        req.add(key)
+            for d in f['defs']:
+                if d['name'] in extra or h['weak'] and not d['top']:
+                    allowed.add((rel, d['line'], d['col'], d['name'], d['type']))
+        return req, allowed
+
+    # ---- the whole tree ---------------------------------------------------------------------------------------------
+    def run(self):
+        import jedi
+        rng = self.rng
+        tree = self.tree = gen_tree(rng, self.profile)
+        self.odd = ' odd' if self.profile == 'odd ignore' else ''
+        for rel, f in tree['files'].items():
+            if f['py']:
+                validate_source(rel, f['raw'], f['text'], f['defs'], f['heads'], f['classes'])
+        base = tempfile.mkdtemp(prefix='t%d_' % self.idx, dir=os.environ['STANDIN_TMP'])
+        try:
+            # the project folder may itself sit below a folder with an ignored name: that is not part of the project
+            wrapper = rng.choice(['', '', '', 'venv', '.tox', 'build'])
+            self.root = root = os.path.realpath(os.path.join(base, wrapper, 'proj'))
+            os.makedirs(root)
+            self.hidden, self.all_files, _ = classify(tree)
+            # the documented limit: 30 parsed files per search
+            visible = sorted(r for r, f in tree['files'].items() if f['py'] and r not in self.hidden)
+            extra = [r for r in visible if not os.path.basename(r).startswith('__init__.')]
+            for r in rng.sample(extra, max(0, min(len(extra), len(visible) - 29))):
+                del tree['files'][r]
+                if not any(os.path.dirname(x) == os.path.dirname(r) for x in tree['files']):
+                    tree['files'][os.path.join(os.path.dirname(r), 'README')] = {'raw': b'', 'py': False}
+            self.hidden, self.all_files, _ = classify(tree)
+            write_tree(rng, root, tree)
+            by_git = git_ignored(root, self.all_files)
+            if by_git is not None:
+                mine = classify_git_only(tree, self.all_files)
+                if mine != by_git:
+                    raise RuntimeError('harness: .gitignore model and git disagree: only model %r, only git %r, %r'
+                                       % (sorted(mine - by_git), sorted(by_git - mine), tree['gitignore_bytes']))
+            self.cfg_name = rng.choice(['default'] * 4 + ['sys.path=[project]'] * 3 + ['no sys.path'])
+            kwargs = {'default': {}, 'sys.path=[project]': {'sys_path': [root], 'smart_sys_path': False},
+                      'no sys.path': {'sys_path': [], 'smart_sys_path': False}}[self.cfg_name]
+            self.project = jedi.Project(root, **kwargs)
+            # a known weakness gets its own label so that it cannot hide other exceptions
+            self.off_path = ', project folder not on sys.path' if self.cfg_name == 'no sys.path' else ''
+            self.queries()
+            self.script_checks(jedi)
+            visible = sorted(r for r, f in tree['files'].items() if f['py'] and r not in self.hidden)
+            self.sample = {'tree': '%s #%d' % (self.profile, self.idx), 'project': self.cfg_name,
+                           'gitignores': {g or '.': b.decode('utf-8') for g, b in tree['gitignore_bytes'].items()},
+                           'visible python files': visible[:12],
+                           'hidden': sorted('%s (%s)' % (p, r) for p, r in self.hidden.items() if p in tree['files'])[:8],
+                           'encodings': sorted({tree['files'][r]['enc'] for r in visible}),
+                           'identifiers': tree['pool'].idents[:8]}
+        finally:
+            shutil.rmtree(base, ignore_errors=True)
+        return {'evaluations': self.evaluations, 'nontrivial': self.nontrivial, 'violations': self.violations,
+                'samples': [self.sample]}
+
+    def queries(self):
+        t, rng, pool = self.tree, self.rng, self.tree['pool']
+        quick = self.tier == 'quick'
+        present = sorted({d['name'] for f in t['files'].values() if f['py'] for d in f['defs']}
+                         | {e[0] for e in self.module_entities()})
+        present = [p for p in present if p in pool.idents or p in pool.heads]
+        both = (False, True)
+        # 1. every identifier
+        for name in rng.sample(present, min(len(present), 10 if quick else 30)) + ['absent_' + pool.stems[0]]:
+            for all_scopes in both:
+                self.query(name, False, all_scopes, 'name')
+        # 2. type filter
+        for name in rng.sample(present, min(len(present), 4 if quick else 10)):
+            for typ in ('def', 'class'):
+                self.query('%s %s' % (typ, name), False, rng.choice(both), 'typed name')
+        # 3. prefixes
+        prefixes = set()
+        for s in pool.stems:
+            prefixes |= {s[:2], s, s + '_', s[:max(2, len(s) - 1)]}
+            if _cap(s):
+                prefixes.add(_cap(s)[:3])
+        prefixes |= {'x_', pool.heads[0][:-2]}
+        prefixes = sorted(prefixes)
+        for p in rng.sample(prefixes, min(len(prefixes), 7 if quick else 20)):
+            for all_scopes in both:
+                self.query(p, True, all_scopes, 'prefix')
+        self.query(rng.choice(['def ', 'class ']) + rng.choice(prefixes), True, rng.choice(both), 'typed prefix')
+        # 4. dotted searches: the head is a module / package or is bound to instances
+        for h in pool.heads:
+            members = set()
+            for name, key, hid, top, required, _ in self.module_entities():
+                if name == h and key[0] is not None:
+                    members |= {d['name'] for d in t['files'][key[0]]['defs'] if d['top']}
+            for f in t['files'].values():
+                if f['py']:
+                    for hh in f['heads']:
+                        if hh['name'] == h:
+                            members |= {m['name'] for m in members_of(f['classes'], hh['cls'])}
+            members = sorted(m for m in members if m != '__init__')
+            for m in rng.sample(members, min(len(members), 4 if quick else 12)):
+                for all_scopes in both:
+                    self.query('%s.%s' % (h, m), False, all_scopes, 'dotted')
+                self.query('%s %s.%s' % (rng.choice(['def', 'class']), h, m), False, rng.choice(both), 'typed dotted')
+                self.query('%s.%s' % (h, m[:rng.randint(1, len(m))]), True, rng.choice(both), 'dotted prefix')
+
+
+def classify_git_only(tree, all_files):
+    """the files that the .gitignore entries alone hide (folders with ignored names are jedi's business, not git's)"""
+    d, f = ignore_model(tree['dirs'], all_files, tree['gitignores'], ('core', 'space', 'file'))
+    return f
+
+
+def _tree_task(arg):
+    idx, seed, tier, profile = arg
+    import jedi
+    jedi.settings.cache_directory = os.path.join(os.environ['STANDIN_TMP'], 'cache_%d' % os.getpid())
+    return TreeCheck(idx, seed, tier, profile).run()
+
+
+def _task(arg):
+    return _legacy_task(arg[1]) if arg[0] == 'legacy' else _tree_task(arg[1])
+
+
+def _init_worker(repo):
+    import sys
+    sys.path.insert(0, repo)   # the tree under test, as in standins.runner
+
+
+def run(repo, seed, tier):
+    n_layouts = len(layouts('thorough'))
+    tasks = [('legacy', (lo, min(lo + 10, n_layouts))) for lo in range(0, n_layouts, 10)]
+    n = {'quick': (18, 26, 2, 3), 'thorough': (150, 200, 8, 20)}[tier]
+    idx = 0
+    for profile, count in zip(('ignore', 'content', 'wide', 'odd ignore'), n):
+        for _ in range(count):
+            tasks.append(('tree', (idx, seed, tier, profile)))
+            idx += 1
+    # spawned (not forked) workers, each with its own parser cache directory
+    with mp.get_context('spawn').Pool(min(16, os.cpu_count() or 4), initializer=_init_worker,
+                                      initargs=(repo,)) as pool:
+        results = pool.map(_task, tasks, chunksize=1)
+        pool.close()
+        pool.join()     # let the workers (and the jedi subprocess of each) end by themselves
+    violations, counts, per_kind, kept = [], {}, {}, []
+    for r in results:
+        violations += r['violations']
+    rounds = [[], [], []]
     for v in violations:
-        if v['label'] not in seen:
-            seen.add(v['label'])
-            uniq.append(v)
+        counts[v['label']] = counts.get(v['label'], 0) + 1
+        k = (v['label'], v.get('kind'))
+        per_kind[k] = per_kind.get(k, 0) + 1
+        if per_kind[k] <= 3:
+            rounds[per_kind[k] - 1].append({'label': v['label'], 'input': v['input'], 'observed': v['observed']})
+    kept = (rounds[0] + rounds[1] + rounds[2])[:60]     # every (label, kind of query) once before any second example
+    n_legacy = len(tasks) - sum(n)
+    samples = [s for lo in (0, n_legacy, n_legacy + n[0]) for r in results[lo:lo + 1] for s in r['samples'][:1] if s]
     return {'name': 'C19.project-search', 'contract': 'C19.Project.search',
-            'evaluations': evaluations, 'distinct_nontrivial': evaluations,
+            'evaluations': sum(r['evaluations'] for r in results),
+            'distinct_nontrivial': sum(r['nontrivial'] for r in results),
             'rule': 'project trees over directories a, ab, a/build, ab/build, a/sub/build, b + each ignored folder name at '
                     'two levels, x .gitignore variants in a/ (none, relative, anchored, with comments/negation/glob) x in '
                     'the root (none, relative, anchored); one module with one function per directory; expected = '
-                    'functions outside ignored places', 'samples': samples, 'violations': violations[:300]}
+                    'functions outside ignored places (all %d layouts). PLUS %d+%d+%d+%d seeded random trees (profiles: '
+                    'ignore rules / file contents / 26-29 files sharing one identifier / ignore rules with odd entries; <= 12 folders of depth <= 4 with '
+                    'package, namespace, stub, odd, ignored and look-alike names; .gitignore files in up to 4 folders '
+                    'with relative, anchored, trailing-slash and multi-component entries, comments, globs, negations, '
+                    'CRLF; in the 4th profile also entries with trailing blanks or naming files, reported under labels '
+                    'of their own; Python '
+                    'files in utf-8 / BOM / latin-1 / cp1252 / iso-8859-15 with PEP 263 lines, LF or CRLF, non-Python '
+                    'decoy files; identifiers from a pool of 2-4 stems (ASCII and non-ASCII) with shared prefixes and '
+                    'case variants, used as function, class, statement, parameter, member, local, module and package '
+                    'names; module files defining their own name; names bound several times), project with the '
+                    'default sys.path / only the project / none. Queries per tree: <= %s identifiers x all_scopes, '
+                    '"def x"/"class x", prefixes, "head.member" (head = module, package or a name bound to instances '
+                    'of classes of the file, possibly several times or locally) with type filter and as prefix; '
+                    'Script.search / complete_search on up to %d buffers per tree against the filtered get_names and '
+                    'the planted definitions. Oracle: the planted definitions (checked against ast.parse of the bytes '
+                    'and by executing the file), a model of .gitignore checked against `git check-ignore`; answers '
+                    'must contain every required definition with file, line, column, name and type, and nothing but '
+                    'definitions spelled that way (case-insensitively) outside ignored places.'
+                    % (n_layouts, n[0], n[1], n[2], n[3], '11' if tier == 'quick' else '31', 3 if tier == 'quick' else 5),
+            'samples': samples, 'violations': kept, 'violation_counts': counts}
